@@ -84,6 +84,7 @@ impl BufMut for Vec<u8> {
     fn put_u8(&mut self, n: u8) { unimplemented!() }
 }
 pub assume_specification[ String::as_bytes ](s: &String) -> (r: &[u8]) ensures r@ == sp_bytes(s@);
+pub assume_specification<T: Clone> [ <[T]>::to_vec ](s: &[T]) -> (r: Vec<T>) ensures r@.len() == s@.len();
 #[verifier::external_body]
 pub fn b64_encode_str(s: &str) -> (r: String) ensures r@ == sp_b64enc(sp_bytes(s@)) { unimplemented!() }
 #[verifier::external_body]
@@ -456,6 +457,25 @@ pub open spec fn same_creds(a: SaslProfile, b: SaslProfile) -> bool {
     }
 }
 
+//@@ strconsts file=fe2o3-amqp/src/sasl_profile/mod.rs names=SCRAM_SHA_1,SCRAM_SHA_256,SCRAM_SHA_512,EXTERNAL,ANONYMOUS,PLAIN lemma=lemma_mechanism_names_distinct label=`[C19.constants.mechanism-names-distinct] the mechanism names are pairwise different strings`
+pub uninterp spec fn sym_text(s: Symbol) -> Seq<char>;
+#[verifier::external_body]
+pub fn symbol_from_str(v: &str) -> (r: Symbol) ensures sym_text(r) == v@ { unimplemented!() }
+impl SaslProfile {
+//@@ fn file=fe2o3-amqp/src/sasl_profile/mod.rs impl=`impl SaslProfile` name=mechanism as=mechanism_real id=SaslProfile::mechanism
+//@@ subst `Symbol::from(value)` => `symbol_from_str(value)` rule=R16
+//@@ spec
+    ensures
+        (match *self {
+            SaslProfile::Anonymous => sym_text(r) == "ANONYMOUS"@,
+            SaslProfile::Plain { .. } => sym_text(r) == "PLAIN"@,
+            SaslProfile::External => sym_text(r) == "EXTERNAL"@,
+            SaslProfile::ScramSha1(_) => sym_text(r) == "SCRAM-SHA-1"@,
+            SaslProfile::ScramSha256(_) => sym_text(r) == "SCRAM-SHA-256"@,
+            SaslProfile::ScramSha512(_) => sym_text(r) == "SCRAM-SHA-512"@,
+        }),       // [C19.client.mechanism-named-as-registered] the mechanism a profile asks for in sasl-init is the IANA-registered name of the mechanism whose exchange it then performs (RFC 4422 / 4616 / 4505 / 5802 / 7677): a PLAIN profile never announces itself under another mechanism's name
+//@@ end
+}
 impl SaslProfile {
     #[verifier::external_body]
     pub fn mechanism(&self) -> (r: Symbol) { unimplemented!() }
@@ -465,6 +485,22 @@ impl SaslProfile {
         ensures same_creds(*old(self), *final(self)),
             scram_of(*final(self)) is Some ==> scram_of(*final(self))->Some_0.state is ClientFirstSent && client_small(scram_of(*final(self))->Some_0),
     { unimplemented!() }
+
+//@@ fn file=fe2o3-amqp/src/sasl_profile/mod.rs impl=`impl SaslProfile` name=initial_response as=initial_response_real id=SaslProfile::initial_response
+//@@ blockarms
+//@@ subst `Binary::from(buf)` => `binary_from(buf)` rule=R16
+//@@ subst `Binary::from( scram_sha1.client.compute_client_first_message().to_vec(), )` => `binary_from(scram_sha1.client.compute_client_first_message().to_vec())` rule=R16
+//@@ subst `Binary::from( scram_sha256.client.compute_client_first_message().to_vec(), )` => `binary_from(scram_sha256.client.compute_client_first_message().to_vec())` rule=R16
+//@@ subst `Binary::from( scram_sha512.client.compute_client_first_message().to_vec(), )` => `binary_from(scram_sha512.client.compute_client_first_message().to_vec())` rule=R16
+//@@ spec
+    requires
+        ((*old(self)) is Plain ==> small(sp_bytes((*old(self))->Plain_username@).len() as int) && small(sp_bytes((*old(self))->Plain_password@).len() as int)),       // (lengths below 2^32: only for the capacity sum)
+    ensures
+        same_creds(*old(self), *final(self)),
+        (*old(self)) is Plain ==> r is Some && r->Some_0@ == seq![0u8] + sp_bytes((*old(self))->Plain_username@) + seq![0u8] + sp_bytes((*old(self))->Plain_password@),       // [C19.client.plain-initial-response] the PLAIN client's initial response is RFC 4616's message with an empty authorization identity: NUL, the user name, NUL, the password -- the octets of exactly the configured credentials, nothing else
+        ((*old(self)) is Anonymous || (*old(self)) is External) ==> r is None,
+        scram_of(*final(self)) is Some ==> r is Some && scram_of(*final(self))->Some_0.state is ClientFirstSent && client_small(scram_of(*final(self))->Some_0),       // [C19.client.scram.first-message-starts-the-exchange] a SCRAM profile (re)starts its exchange with a client-first message: the nonce is drawn then (compute_client_first_message above)
+//@@ end
 
 //@@ fn file=fe2o3-amqp/src/sasl_profile/mod.rs impl=`impl SaslProfile` name=on_frame
 //@@ orsplit
